@@ -45,25 +45,60 @@ Full(h) == IF h.port = <<>> THEN h.name ELSE h.name \o <<":">> \o h.port
 \* the normalised host string of a request host or of a host pattern; <<>> for NoHost
 HostStr(h, tls) == Full(Norm(h, tls))
 
-IsWild(s) == s # <<>> /\ s[1] = "*"
+-----------------------------------------------------------------------------
+\* The glob language of host patterns (gobwas/glob as fabio compiles it, without separators):
+\*   *      any string (possibly empty)        ?      any one character
+\*   [abc]  one character of the set           {x,y}  one of the alternatives (literals here)
+\* everything else stands for itself.
+IndexOf(p, c) == IF \E i \in 1..Len(p) : p[i] = c
+                 THEN CHOOSE i \in 1..Len(p) : p[i] = c /\ \A j \in 1..(i - 1) : p[j] # c
+                 ELSE 0
+Drop(p, n) == SubSeq(p, n + 1, Len(p))
+\* the alternatives of a brace body "x,y,z" (without the braces)
+RECURSIVE Alts(_)
+Alts(b) == LET i == IndexOf(b, ",") IN
+           IF i = 0 THEN {b} ELSE {SubSeq(b, 1, i - 1)} \cup Alts(Drop(b, i))
+RECURSIVE GlobMatch(_, _)
+GlobMatch(p, s) ==
+    IF p = <<>> THEN s = <<>>
+    ELSE CASE p[1] = "*" -> \E k \in 0..Len(s) : GlobMatch(Tail(p), Drop(s, k))
+           [] p[1] = "?" -> s # <<>> /\ GlobMatch(Tail(p), Tail(s))
+           [] p[1] = "[" /\ IndexOf(p, "]") > 2 ->
+                  LET j == IndexOf(p, "]") IN
+                  s # <<>> /\ (\E i \in 2..(j - 1) : p[i] = s[1]) /\ GlobMatch(Drop(p, j), Tail(s))
+           [] p[1] = "{" /\ IndexOf(p, "}") > 1 ->
+                  LET j == IndexOf(p, "}") IN
+                  \E a \in Alts(SubSeq(p, 2, j - 1)) : GlobMatch(a \o Drop(p, j), s)
+           [] OTHER -> s # <<>> /\ s[1] = p[1] /\ GlobMatch(Tail(p), Tail(s))
 
-\* does the (normalised, non-empty) pattern p match the (normalised) request host s?
-\* glob on : a leading "*" stands for any (possibly empty) string; otherwise literal
-\* glob off: literal only
-HostMatchN(p, s, glob) == IF glob /\ IsWild(p) THEN IsSuffix(Tail(p), s) ELSE p = s
+\* How does the (normalised) host pattern p relate to the (normalised) request host s?
+\*   "none"  the route has no host          "exact" p is literally the request host
+\*   "wild"  globbing is on and p, read as a glob, denotes the request host among others
+\*   "no"    no match
+\* A pattern that is literally the host is exact whatever characters it contains (the IPv6
+\* literal "[::1]" is a host, not a character class, when the request is for [::1]).
+MatchKind(p, s, glob) ==
+    IF p = <<>> THEN "none"
+    ELSE IF p = s THEN "exact"
+    ELSE IF glob /\ GlobMatch(p, s) THEN "wild" ELSE "no"
+HostMatchN(p, s, glob) == MatchKind(p, s, glob) \in {"exact", "wild"}
 HostMatch(pat, h, tls, glob) == HostMatchN(HostStr(pat, tls), HostStr(h, tls), glob)
 
-\* kind of a MATCHING pattern, and the length of the suffix a wildcard pattern fixes
-HostKindN(p, glob) == IF p = <<>> THEN "none" ELSE IF glob /\ IsWild(p) THEN "wild" ELSE "exact"
-SuffixLenN(p) == Len(p) - 1
-\* p1, p2 both match the request: p1 is strictly more specific than p2
-MoreSpecificN(p1, p2, glob) ==
-    LET k1 == HostKindN(p1, glob)
-        k2 == HostKindN(p2, glob) IN
-    \/ k1 = "exact" /\ k2 # "exact"
-    \/ k1 = "wild" /\ k2 = "wild" /\ SuffixLenN(p1) > SuffixLenN(p2)
-    \/ k1 = "wild" /\ k2 = "none"
-MoreSpecificHost(p1, p2, tls, glob) == MoreSpecificN(HostStr(p1, tls), HostStr(p2, tls), glob)
+\* the suffix a wildcard pattern fixes: the literal characters after its last glob construct
+GlobClosers == {"*", "?", "]", "}"}
+LitSuffixLen(p) == IF \E i \in 1..Len(p) : p[i] \in GlobClosers
+                   THEN Len(p) - (CHOOSE i \in 1..Len(p) : p[i] \in GlobClosers /\ \A j \in (i + 1)..Len(p) : p[j] \notin GlobClosers)
+                   ELSE Len(p)
+StarFree(p) == \A i \in 1..Len(p) : p[i] # "*"
+\* two wildcard patterns that both match: the longer fixed suffix is more specific.  The
+\* statement ranks suffixes; it does not say that a pattern with "*" and a long suffix beats a
+\* pattern without "*" (which denotes finitely many hosts), so that pair is left unranked.
+MoreSpecificWild(p1, p2) == LitSuffixLen(p1) > LitSuffixLen(p2) /\ ~(StarFree(p2) /\ ~StarFree(p1))
+\* v1, v2 classified routes (field mk = MatchKind, both matching): v1's host is strictly more specific
+MoreSpecificK(v1, v2) ==
+    \/ v1.mk = "exact" /\ v2.mk # "exact"
+    \/ v1.mk = "wild" /\ v2.mk = "wild" /\ MoreSpecificWild(v1.h, v2.h)
+    \/ v1.mk = "wild" /\ v2.mk = "none"
 
 -----------------------------------------------------------------------------
 \* paths.  Matchers: "prefix", "iprefix", "glob".  Glob path patterns of the universe are a
@@ -73,12 +108,17 @@ StarPath(rp) == rp # <<>> /\ rp[Len(rp)] = "*"
 PathLen(m, rp) == IF m = "glob" /\ StarPath(rp) THEN Len(rp) - 1 ELSE Len(rp)
 
 -----------------------------------------------------------------------------
-\* Normalisation is done once: a route as the rules see it on a plain / TLS connection, and a
-\* request as the rules see it.  (v.r is the route itself, rq the request itself.)
+\* The choice is made in three stages.
+\*  1. normalise: a route as the rules see it on a plain / TLS connection, a request as the
+\*     rules see it (v.r is the route itself);
+\*  2. classify every route's host against the request host (field mk);
+\*  3. among the routes whose host matches and whose path matches, choose.
 Req(h, tls, u) == [host |-> h, tls |-> tls, path |-> u]
 NRoute(r, tls) == [r |-> r, h |-> HostStr(r.h, tls), p |-> r.p, lp |-> Lower(r.p)]
 NTable(tbl, tls) == {NRoute(r, tls) : r \in tbl}
 NReq(rq) == [h |-> HostStr(rq.host, rq.tls), u |-> rq.path, lu |-> Lower(rq.path)]
+Classify(v, s, glob) == [r |-> v.r, h |-> v.h, p |-> v.p, lp |-> v.lp, mk |-> MatchKind(v.h, s, glob)]
+KTable(nt, s, glob) == {Classify(v, s, glob) : v \in nt}
 
 PathMatchN(m, v, q) ==
     CASE m = "prefix"  -> IsPrefix(v.p, q.u)
@@ -92,22 +132,21 @@ PathKeyN(m, v) ==
       [] m = "iprefix" -> v.lp
       [] m = "glob"    -> IF StarPath(v.p) THEN Front(v.p) ELSE v.p
 
-\* candidates: host pattern matches or no host, and the path matches
-CandN(nt, q, m, glob) ==
-    {v \in nt : /\ (v.h = <<>> \/ HostMatchN(v.h, q.h, glob))
-                /\ PathMatchN(m, v, q)}
+\* candidates (kt: classified routes): host pattern matches or no host, and the path matches
+CandK(kt, q, m) == {v \in kt : v.mk # "no" /\ PathMatchN(m, v, q)}
 \* v1 is strictly preferred to v2 (both candidates): more specific host, or the same host
 \* pattern and a longer path
-BetterN(v1, v2, m, glob) ==
-    \/ MoreSpecificN(v1.h, v2.h, glob)
+BetterK(v1, v2, m) ==
+    \/ MoreSpecificK(v1, v2)
     \/ v1.r.h = v2.r.h /\ PathLen(m, v1.p) > PathLen(m, v2.p)
-WinnersN(nt, q, m, glob) ==
-    LET c == CandN(nt, q, m, glob) IN
-    {v \in c : \A o \in c \ {v} : BetterN(v, o, m, glob)}
+WinnersK(kt, q, m) ==
+    LET c == CandK(kt, q, m) IN
+    {v \in c : \A o \in c \ {v} : BetterK(v, o, m)}
 
 \* the declarative choice on un-normalised data
-Cand(tbl, rq, m, glob)    == {v.r : v \in CandN(NTable(tbl, rq.tls), NReq(rq), m, glob)}
-Winners(tbl, rq, m, glob) == {v.r : v \in WinnersN(NTable(tbl, rq.tls), NReq(rq), m, glob)}
+KOf(tbl, rq, glob) == KTable(NTable(tbl, rq.tls), NReq(rq).h, glob)
+Cand(tbl, rq, m, glob)    == {v.r : v \in CandK(KOf(tbl, rq, glob), NReq(rq), m)}
+Winners(tbl, rq, m, glob) == {v.r : v \in WinnersK(KOf(tbl, rq, glob), NReq(rq), m)}
 \* the route that must serve rq, or None
 None == [h |-> NoHost, p |-> <<>>]
 Best(tbl, rq, m, glob) ==
@@ -118,38 +157,41 @@ Best(tbl, rq, m, glob) ==
 \* When is the question well posed?  The statement does not rank two different patterns
 \* that denote the same host ("a.io" and "a.io:80" on a plain connection, "A.io" and "a.io"),
 \* nor two paths of one host that the matcher cannot tell apart ("/X/y" and "/x/y" under
-\* iprefix, "/x" and "/x*" under glob).  Such tables are outside the claim.
+\* iprefix, "/x" and "/x*" under glob), nor two different wildcard patterns that both match the
+\* request host and fix suffixes of the same length ("*.a.io" and "{b,c}.a.io" for b.a.io) or
+\* pit a "*" pattern against a "*"-free one.  Such (table, request) pairs are outside the claim.
 HostAmbiguousN(nt) ==
     \E v1, v2 \in nt : v1.r.h # v2.r.h /\ v1.h # <<>> /\ v2.h # <<>> /\ v1.h = v2.h
 PathAmbiguousN(nt, m) ==
     \E v1, v2 \in nt : v1.r.h = v2.r.h /\ v1.p # v2.p /\ PathKeyN(m, v1) = PathKeyN(m, v2)
+WildAmbiguousK(kt) ==
+    \E v1, v2 \in kt : /\ v1.mk = "wild" /\ v2.mk = "wild" /\ v1.h # v2.h
+                       /\ ~MoreSpecificWild(v1.h, v2.h) /\ ~MoreSpecificWild(v2.h, v1.h)
 WellPosedN(nt, m) == ~HostAmbiguousN(nt) /\ ~PathAmbiguousN(nt, m)
-WellPosed(tbl, tls, m) == WellPosedN(NTable(tbl, tls), m)
+WellPosedK(nt, kt, m) == WellPosedN(nt, m) /\ ~WildAmbiguousK(kt)
+WellPosed(tbl, rq, m, glob) == WellPosedK(NTable(tbl, rq.tls), KOf(tbl, rq, glob), m)
 
 \* properties of the definition, decided by TLC for every table and request of the universe
-\* (Match_MC): on a well-posed table the preference is a strict total order on the candidates,
-\* hence exactly one winner whenever there is a candidate, and the winner is a candidate that
-\* no other candidate beats.
-BestUniqueN(nt, q, m, glob) ==
-    LET c == CandN(nt, q, m, glob)
-        w == WinnersN(nt, q, m, glob) IN
+\* (Match_MC): on a well-posed (table, request) the preference is a strict total order on the
+\* candidates, hence exactly one winner whenever there is a candidate, and the winner is a
+\* candidate that no other candidate beats.
+BestUniqueK(kt, q, m) ==
+    LET c == CandK(kt, q, m)
+        w == WinnersK(kt, q, m) IN
     /\ c # {} => Cardinality(w) = 1
     /\ c = {} => w = {}
-    /\ \A v1, v2 \in c : v1 # v2 => (BetterN(v1, v2, m, glob) # BetterN(v2, v1, m, glob))
-BestSoundN(nt, q, m, glob) ==
-    LET w == WinnersN(nt, q, m, glob)
-        c == CandN(nt, q, m, glob) IN
+    /\ \A v1, v2 \in c : v1 # v2 => (BetterK(v1, v2, m) # BetterK(v2, v1, m))
+BestSoundK(kt, q, m) ==
+    LET w == WinnersK(kt, q, m)
+        c == CandK(kt, q, m) IN
     \A b \in w :
-        /\ b \in nt
-        /\ (b.h = <<>> \/ HostMatchN(b.h, q.h, glob))
+        /\ b \in kt /\ b.mk # "no"
         /\ PathMatchN(m, b, q)
         \* host-less only if no host-specific candidate
-        /\ (b.h = <<>> => \A o \in c : o.h = <<>>)
+        /\ (b.mk = "none" => \A o \in c : o.mk = "none")
         \* exact beats wildcard, longer suffix beats shorter
-        /\ \A o \in c : ~MoreSpecificN(o.h, b.h, glob)
-        /\ (HostKindN(b.h, glob) = "wild" =>
-               \A o \in c : HostKindN(o.h, glob) # "exact"
-                            /\ (HostKindN(o.h, glob) = "wild" => Len(o.h) <= Len(b.h)))
+        /\ (b.mk = "wild" => \A o \in c : o.mk # "exact"
+                                          /\ (o.mk = "wild" => LitSuffixLen(o.h) <= LitSuffixLen(b.h)))
         \* longest path within the host
         /\ \A o \in c : o.r.h = b.r.h => PathLen(m, o.p) <= PathLen(m, b.p)
 
